@@ -355,11 +355,11 @@ def run(prog, rep, tier):
     _n = 0
     for _rid, _r in sorted(_sub.rules.items()):
         for _k in sorted(_r.get("keys", ())):
-            if "filedecompressor" in _k or "decompress_to_ntf" in _k:
+            if "filedecompressor" in _k or "decompress_to_ntf" in _k or "process_path_tar" in _k or _rid in ("R5.5", "R5.10"):
                 _n += 1
                 rep.examined(R96L, "%s|%s" % (_rid, _k), sample={"rule": _rid, "instance": _k})
     for (_rid, _key, _what, _detail) in _sub.violations:
-        if "filedecompressor" in _key or "decompress_to_ntf" in _key:
+        if "filedecompressor" in _key or "decompress_to_ntf" in _key or "process_path_tar" in _key or _rid in ("R5.5", "R5.10"):
             rep.violation(R96L, _key.split("|", 1)[1] + "|" + _rid, _what)
     if _n < 3:
         raise CheckerError("R9.6: only %d C05 instances at filedecompressor sites" % _n)
